@@ -408,17 +408,18 @@ fn measure(pair: &mut Pair, isa: &Isa, shape: usize) -> (usize, usize) {
 fn c13_units(tier: Tier) -> Vec<Unit> {
     let mut units = Vec::new();
     let thresholds: Vec<usize> = if tier == Tier::Thorough { vec![1, 2, 3, 5] } else { vec![1, 2] };
+    let win: u64 = if tier == Tier::Thorough { 17 } else { 7 };
     for shape in 1..=6usize {
         for &m in thresholds.iter() {
             let dom = format!(
-                "guest shape {} (1 counted loop, 2 nested loop, 3 call in loop, 4 port write in loop, 5 console writes around a loop, 6 timer with overflow handler): all loop counts within +-3 of the count whose total reaches {} x 2,000,000 states (threshold-1 charge, exactly on, just past), each through the real run() with the twin following; one count run twice (determinism)",
-                shape, m
+                "guest shape {1} (1 counted loop, 2 nested loop, 3 call in loop, 4 port write in loop, 5 console writes around a loop, 6 timer with overflow handler): all loop counts within +-{0} of the count whose total reaches {2} x 2,000,000 states (threshold-1 charge, exactly on, just past), each through the real run() with the twin following; one count run twice (determinism)",
+                win / 2, shape, m
             );
-            units.push(Unit::new(&format!("shape{}/sync{}", shape, m), 7, &dom, move |ctx, chunk| {
+            units.push(Unit::new(&format!("shape{}/sync{}", shape, m), win, &dom, move |ctx, chunk| {
                 let mut pair = Pair::new();
                 let (a, b) = measure(&mut pair, &ctx.isa, shape);
                 let nstar = ((m * SYNC).saturating_sub(a) + b - 1) / b;
-                let n = (nstar as i64 + chunk as i64 - 3).max(1) as u32;
+                let n = (nstar as i64 + chunk as i64 - (win as i64 / 2)).max(1) as u32;
                 let p = build(&ctx.isa, shape, n, 0);
                 let (o, v) = run_checked(&mut pair, &p, 50_000_000);
                 ctx.st.cases += 1;
@@ -433,7 +434,7 @@ fn c13_units(tier: Tier) -> Vec<Unit> {
                 } else if o.result != "ok" {
                     ctx.custom_violation("c13", format!("terminating guest did not finish: {}", o.result), case.clone(), json!(null), json!(null));
                 }
-                if chunk == 3 {
+                if chunk == win / 2 {
                     // determinism: same program again, everything identical
                     let (o2, _) = run_checked(&mut pair, &p, 50_000_000);
                     ctx.st.cases += 1;
